@@ -103,7 +103,10 @@ def write_cfg(path, spec="Spec", constants=None, invariants=(), properties=(), p
     if constants:
         lines.append("CONSTANTS")
         for k, v in constants.items():
-            lines.append("  %s = %s" % (k, v))
+            if isinstance(v, str) and v.startswith("<-"):
+                lines.append("  %s %s" % (k, v))
+            else:
+                lines.append("  %s = %s" % (k, v))
     for i in invariants:
         lines.append("INVARIANT " + i)
     for p in properties:
@@ -372,6 +375,10 @@ class Check:
         cov["known_findings_seen"] = self.known
         if not cov["samples"]:
             cov["samples"] = ["(no sample recorded)"]
+        if cov["states"] == 0 or cov["transitions"] == 0:
+            # no model was explored in this run (e.g. a replay): fall back to the generic keys
+            for k in ("states", "transitions"):
+                cov.pop(k, None)
         ev = {"property_id": self.pid, "tier": self.tier, "seed": self.seed, "level": level,
               "coverage": cov, "assumptions": self.assumptions,
               "wall_s": round(time.time() - self.t0, 2), "violations": len(self.violations)}
